@@ -100,7 +100,7 @@ def run(tier, seed):
     with vlib.Scratch() as sc:
         for i in range(n):
             sspec, dspec = ew.gen_world(r, with_big=(i % 4 == 0))
-            fl = ew.gen_flags(r)
+            fl = ew.gen_flags(r, jobs=True)
             if i % 3 != 2:
                 fl["delete"] = 1
                 fl["thr"] = r.choice([100, 100, 50])
@@ -136,7 +136,7 @@ def run(tier, seed):
     model = [ew.model_obs(m) for m in vlib.run_model(cases)]
     diffs, viol, hits, nontriv = [], [], {}, set()
     for case, o, m, raw, (i, fl, rules) in zip(cases, obs_l, model, raws, metas):
-        same = (o == m)
+        same = (o == m) if fl.get("j", 1) == 1 else (ew.norm_events(o) == ew.norm_events(m))     # several workers: any completion order
         if not same:
             diffs.append({"world": i, "flags": fl, "rules": rules, "case": case, "impl": o, "model": m, "stderr": raw["stderr"]})
         for f in oracle(fl, raw, rules):
